@@ -16,7 +16,7 @@ RULE = ("one evaluation = one (entity class, stanza): the stanza is either the d
 ASSUMPTIONS = ["'documented shape' = the class's own test fixture / docstring as transcribed in vf/catalogue.py; enumeration-valued attributes keep the documented literal",
                "protobuf payloads inside <proto> are compared field by field on the fields the sender set (C10's comparator), not byte by byte",
                "a catalogue disagreement is reviewed as a possible transcription error before it is called a defect"]
-REQUIRED = ["fixture_classes", "hand_classes", "receive_roundtrips", "send_roundtrips", "values_redrawn", "lists_varied", "normalisations", "outgoing_classes", "aliasing_probes", "aliasing_ok", "receive_side_classes_found", "receive_side_classes_catalogued", "keys_mixed_cases", "keys_mixed_ok", "optional_variants", "optional_ok"]
+REQUIRED = ["same_sender_again", "fixture_classes", "hand_classes", "receive_roundtrips", "send_roundtrips", "values_redrawn", "lists_varied", "normalisations", "outgoing_classes", "aliasing_probes", "aliasing_ok", "receive_side_classes_found", "receive_side_classes_catalogued", "keys_mixed_cases", "keys_mixed_ok", "optional_variants", "optional_ok"]
 TIMEOUT = {"quick": 600, "thorough": 7200}
 
 
@@ -106,6 +106,25 @@ def judge_receive(acc, cls, name, tree, origin, nontrivial, codec):
     # the send-side clause speaks of entities that are sent: stanzas without a 'from' (requests, outgoing messages...)
     if "from" not in (back.attributes or {}):
         judge_send(acc, cls.__name__, name, back, w, codec)
+    # another stanza from the SAME sender right afterwards, lacking the attributes this class serialises only when they are set
+    # (push name, offline marker, ...): what the earlier stanza carried must not show up in it
+    if origin != "same-sender-again" and tree[0] in ("message", "receipt", "notification") and any(k_ in tree[1] for k_ in ("notify", "offline", "t")):
+        drop = [k_ for k_ in ("notify", "offline") if k_ in tree[1]]
+        if drop:
+            t2 = (tree[0], {k_: v_ for k_, v_ in tree[1].items() if k_ not in drop}, tree[2], tree[3])
+            if "id" in t2[1]:
+                t2[1]["id"] = str(t2[1]["id"]) + "b"
+            try:
+                e2 = cls.fromProtocolTreeNode(treeeq.to_node(t2))
+                b2 = treeeq.to_tuple(e2.toProtocolTreeNode())
+            except Exception:  # noqa  (whether the class accepts the stanza without them is the optional-attribute probe's business)
+                return
+            acc.count("same_sender_again")
+            # (a class may write its own default for an absent attribute: only the earlier stanza's value is a carry-over)
+            extra = [k_ for k_ in drop if b2[1].get(k_) is not None and b2[1].get(k_) == tree[1][k_] and tree[1][k_] not in ("0", "", "false")]
+            if extra:
+                acc.violation("%s:carried-over:%s" % (cls.__name__, "+".join(extra)), "a second stanza from the same sender, without %s, comes back from %s with %s"
+                              % (drop, cls.__name__, {k_: b2[1][k_] for k_ in extra}), dict(w, origin="same-sender-again"))
 
 
 # ---------------------------------------------------------------------------------------------
